@@ -71,6 +71,20 @@ fn chunk_features(units: &[U], c: &Chunk, spec: &OptSpec) -> String {
             }
         }
     }
+    // 1b. a letter that is a flag in one command and an argument in another one: the tokenizer
+    //     knows letters for the whole program, not per command
+    if multi_letter {
+        let amb = ambiguous_letters(spec);
+        if !amb.is_empty() {
+            for u in &units[c.lo..c.hi] {
+                if let UKind::Flag { names, .. } | UKind::Arg { names, .. } = &u.kind {
+                    if names.shorts.iter().any(|s| amb.contains(s)) {
+                        return "cluster-letter-declared-differently-in-another-command".to_string();
+                    }
+                }
+            }
+        }
+    }
     for u in &units[c.lo..c.hi] {
         if let UKind::Arg { value, .. } = &u.kind {
             // 2. `-nVALUE` with a value that is not valid UTF-8
@@ -132,9 +146,93 @@ fn same(a: &Outcome, b: &Outcome) -> bool {
     }
 }
 
+/// Sibling commands commonly reuse a letter: make the first short flag of one command and the first
+/// short argument of another one share their letter (names stay unique along every path)
+fn share_a_letter_between_commands(spec: &mut OptSpec, rng: &mut crate::rng::Rng) -> bool {
+    fn cmds_mut<'a>(s: &'a mut Spec, out: &mut Vec<&'a mut CmdSpec>) {
+        match s {
+            Spec::Cmd(c) => out.push(c),
+            Spec::Wrap { inner, .. } => cmds_mut(inner, out),
+            Spec::Seq(xs) | Spec::Alt(xs) | Spec::Adj(xs) => {
+                for x in xs {
+                    cmds_mut(x, out);
+                }
+            }
+            _ => {}
+        }
+    }
+    fn first_item_mut<'a>(s: &'a mut Spec, want_arg: bool) -> Option<&'a mut Item> {
+        match s {
+            Spec::Item(i) => {
+                let ok = !i.names.shorts.is_empty()
+                    && i.names.shorts[0].is_ascii()
+                    && if want_arg { i.is_arg() } else { i.is_flag() };
+                if ok {
+                    Some(i)
+                } else {
+                    None
+                }
+            }
+            // hidden items are F03's business
+            Spec::Wrap { w: W::Hide, .. } => None,
+            Spec::Wrap { inner, .. } => first_item_mut(inner, want_arg),
+            Spec::Seq(xs) | Spec::Alt(xs) => {
+                for x in xs {
+                    if let Some(i) = first_item_mut(x, want_arg) {
+                        return Some(i);
+                    }
+                }
+                None
+            }
+            _ => None,
+        }
+    }
+    let mut cmds = Vec::new();
+    cmds_mut(&mut spec.root, &mut cmds);
+    if cmds.len() < 2 {
+        return false;
+    }
+    let a = rng.below(cmds.len());
+    let mut b = rng.below(cmds.len() - 1);
+    if b >= a {
+        b += 1;
+    }
+    let letter = match first_item_mut(&mut cmds[a].opts.root, false) {
+        Some(i) => i.names.shorts[0],
+        None => return false,
+    };
+    match first_item_mut(&mut cmds[b].opts.root, true) {
+        Some(i) => {
+            i.names.shorts[0] = letter;
+            true
+        }
+        None => false,
+    }
+}
+
+/// short letters declared as a flag at one place and as an argument at another
+fn ambiguous_letters(spec: &OptSpec) -> Vec<char> {
+    let mut items = Vec::new();
+    spec.root.all_items(&mut items);
+    let flags: Vec<char> = items
+        .iter()
+        .filter(|i| i.is_flag())
+        .flat_map(|i| i.names.shorts.iter().copied())
+        .collect();
+    items
+        .iter()
+        .filter(|i| i.is_arg())
+        .flat_map(|i| i.names.shorts.iter().copied())
+        .filter(|c| flags.contains(c))
+        .collect()
+}
+
 pub fn run_case(case: &mut Case) {
     let mut rng = case.rng(0);
-    let spec = gen_options(&mut rng, opts());
+    let mut spec = gen_options(&mut rng, opts());
+    if rng.chance(1, 4) && share_a_letter_between_commands(&mut spec, &mut rng) {
+        case.rep.count("definitions-with-a-letter-shared-between-commands");
+    }
     let b = Bench::new(case, spec);
     let n_der = if case.thorough { 30 } else { 12 };
     for di in 0..n_der {
@@ -281,6 +379,7 @@ pub fn run_case(case: &mut Case) {
                 // canonical line, the divergence is theirs; otherwise it is an interaction.
                 const SUFFICIENT: &[&str] = &[
                     "hidden-short",
+                    "cluster-letter-declared-differently-in-another-command",
                     "short-joined-non-utf8-value",
                     "cluster-joined-value-contains-eq",
                 ];
